@@ -195,6 +195,12 @@ def collect_sites(spec, data, trail, parent, key, e, layouts, out):  # noqa: C90
                 if isinstance(cur, dict):
                     out.append(Site((*trail, *pth), (*trail, *pth, "<add-extra>"), "unknown_key_in_flattened_container",
                                     (lambda c: lambda: c.__setitem__("zz_unknown", 1))(cur), ("extra", (*trail, *pth), "zz_unknown")))
+        if lay is not None and lay["how"] == "as_list" and isinstance(data, list):
+            # a model loaded from a list: too short, or not a sequence at all (str and Mapping answer data[0] too)
+            if data:
+                out.append(Site(trail, trail, "missing_item", lambda: data.pop(), ("leaf", trail, "NoRequiredItemsLoadError")))
+            out.append(Site(trail, trail, "wrong_container_str", replace("ab"), ("leaf", trail)))
+            out.append(Site(trail, trail, "wrong_container_map", replace({0: 1}), ("leaf", trail)))
         groups = {}
         for f in ms["fields"]:
             pth = field_path(ms, f, lay)
@@ -279,6 +285,52 @@ def st_case_layout(draw):
     return {"t": t, "v": v, "layouts": {"M0": lay}, "picks": [draw(st.integers(0, 40)) for _ in range(npicks)],
             "prefer": draw(st.sampled_from([["missing_required", "missing_group"], ["missing_required", "missing_group"],
                                             ["missing_required", "missing_group", "wrong_type", "wrong_container"]]))}
+
+
+@st.composite
+def st_case_policy(draw):
+    """Focused cases: models whose layout has a POLICY about the shape of the container (unknown keys forbidden, also inside the
+    containers of a flattened layout; loaded from a list), below lists / dicts / other models, and faults against that policy
+    preferred -- unknown keys, missing and extra items are otherwise a small fraction of the sites of a case."""
+    def model(name, depth):
+        n = draw(st.integers(1, 4))
+        names = draw(st.lists(st.sampled_from(tspec.FIELD_NAMES), min_size=n, max_size=n, unique=True))
+        fields = []
+        for nm in names:
+            leaf = draw(st.sampled_from([["int"], ["str"], ["bool"], ["list", ["int"], "typing"], ["tuple", [["int"], ["str"]], "typing"],
+                                         ["dict", ["str"], ["int"], "typing"]]))
+            fields.append({"n": nm, "t": leaf, "d": None})
+        if depth < 2 and draw(st.integers(0, 2)) != 0:
+            inner = model(f"M{depth + 1}", depth + 1)
+            wrap = draw(st.sampled_from(["plain", "list", "dict"]))
+            t = inner if wrap == "plain" else ["list", inner, "typing"] if wrap == "list" else ["dict", ["str"], inner, "typing"]
+            fields[draw(st.integers(0, len(fields) - 1))]["t"] = t
+        return ["model", {"name": name, "kind": draw(st.sampled_from(["dataclass", "attrs", "namedtuple", "typeddict"])),
+                          "fields": fields}]
+    t = model("M0", 0)
+    layouts = {}
+    for sp in tspec.walk(t):
+        if sp[0] != "model":
+            continue
+        ms = sp[1]
+        how = draw(st.sampled_from(["forbid", "as_list", "nested+forbid", "rename+forbid", "forbid", "as_list"]))
+        lay = {"how": how}
+        if "rename" in how:
+            lay["map"] = {f["n"]: f"K{i}" for i, f in enumerate(ms["fields"]) if draw(st.booleans())}
+        if how == "nested+forbid":
+            lay["nest"] = {f["n"]: draw(st.sampled_from([["outer"], ["o1", "o2"], ["grp"], ["deep", "a", "x"], ["deep", "b"]]))
+                           for f in ms["fields"] if draw(st.integers(0, 3)) != 0}
+        layouts[ms["name"]] = lay
+    wrap = draw(st.sampled_from(["plain", "list", "dict"]))
+    if wrap != "plain":
+        t = ["list", t, "typing"] if wrap == "list" else ["dict", ["str"], t, "typing"]
+    v = draw(tspec.st_value(t, min_size=1))
+    npicks = draw(st.sampled_from([1, 2, 2, 3, 4]))
+    prefer = ["unknown_key", "unknown_key_in_flattened_container", "extra_item", "missing_item", "wrong_container_str",
+              "wrong_container_map"]
+    if draw(st.booleans()):
+        prefer = [*prefer, "missing_required", "missing_group", "wrong_type", "bad_dict_key"]
+    return {"t": t, "v": v, "layouts": layouts, "picks": [draw(st.integers(0, 40)) for _ in range(npicks)], "prefer": prefer}
 
 
 def follow(root, trail):
@@ -410,6 +462,7 @@ def explore(ctx: runner.Ctx):
     n = ctx.budget(7000, 300000)
     ctx.given(st_case(), lambda c: check_case(ctx, c), int(n * 0.75))
     ctx.given(st_case_layout(), lambda c: check_case(ctx, c), max(1, int(n * 0.25)), seed_offset=1)
+    ctx.given(st_case_policy(), lambda c: check_case(ctx, c), max(1, int(n * 0.25)), seed_offset=2)
 
 
 RULE = ("cases = (type spec depth<=4 without non-Optional unions, canonical value, model layouts, fault picks); a non-empty "
@@ -418,7 +471,7 @@ RULE = ("cases = (type spec depth<=4 without non-Optional unions, canonical valu
 
 if __name__ == "__main__":
     raise SystemExit(runner.main(
-        PROP, explore=explore, check_case=check_case, strategy=st.one_of(st_case(), st_case_layout()), rule=RULE,
+        PROP, explore=explore, check_case=check_case, strategy=st.one_of(st_case(), st_case_layout(), st_case_policy()), rule=RULE,
         assumptions=["strict_coercion=True (a planted wrong-typed leaf must be unacceptable)",
                      "a union (Optional) is one leaf: faults below it are expected at the union's own trail",
                      "for tuple length errors input_value may be the tuple() conversion of the sub-value (pinned by the suite)"],
